@@ -59,6 +59,16 @@ fn walk_tlvs(it: v2::TypeLengthValues<'_>) -> Result<usize, usize> {
                         let o = tlv.to_owned();
                         let _ = o == tlv;
                         let _ = format!("{:?}", o.kind);
+                        // Debug of the item itself (derived today, hand-written tomorrow)
+                        // (large values: one in eight, chosen by content, to bound the cost)
+                        if count <= 64
+                            && (tlv.len() <= 2048 || crate::rng::fnv(&tlv.value[..64]) % 8 == 0)
+                        {
+                            let _ = format!("{:?}", tlv).len();
+                            if tlv.len() <= 2048 {
+                                let _ = format!("{:#?}", o).len();
+                            }
+                        }
                     }
                     Err(e) => {
                         let _ = e.to_string();
